@@ -136,13 +136,23 @@ theorem rgb_hsl_rgb_eqv (c : Rgba Rat) (h : c.WF) :
 
 example : (Rgba.fromBytes 255 255 0 : Rgba Rat).WF := Rgba.fromBytes_wf 255 255 0 (by omega) (by omega) (by omega)
 
-/- STATED, NOT YET PROVED (kept visible; see notes/C31.md):
-  rgb_hwb_rgb : ∀ c : Rgba Rat, c.WF →
-      let c' := (c.toHwba CQuirks.spec).toRgba CQuirks.spec;  c'.r = c.r ∧ c'.g = c.g ∧ c'.b = c.b ∧ c'.a = c.a
-Plan (not finished in time): `Hwba.toRgba` is `Hwba.toHsla` followed by `Hsla.toRgba`; show
-`(c.toHwba).toHsla = c.toHsla` field by field (w = min/255, b = 1 − max/255 ⇒ l = (max+min)/2,
-s = (d/2) / min(l, 1−l) = d / (mm or 2−mm), hue re-normalised by `degMod_id`) and conclude with
-`rgb_hsl_rgb`.  The statement is exercised on the implementation by the `c31rebuild` cases. -/
+/-- FULL STATEMENT (rgb → hwb → rgb): for every rgba value whose channels are in range
+(`0 ≤ r, g, b ≤ 255`, `0 ≤ a ≤ 1`; nothing else is assumed), converting to hwb (`Rgba.toHwba`:
+whiteness = min/255, blackness = 1 − max/255, hue from the hsl conversion) and back
+(`Hwba.toRgba`, which rsass computes through `Hsla::from(hwba)`) gives exactly the same four
+channels.  Proof: `(c.toHwba).toHsla = c.toHsla` (`Rgba.hwb_toHsla_eq`), then `rgb_hsl_rgb`. -/
+theorem rgb_hwb_rgb (c : Rgba Rat) (h : c.WF) :
+    ((c.toHwba CQuirks.spec).toRgba CQuirks.spec).r = c.r ∧
+    ((c.toHwba CQuirks.spec).toRgba CQuirks.spec).g = c.g ∧
+    ((c.toHwba CQuirks.spec).toRgba CQuirks.spec).b = c.b ∧
+    ((c.toHwba CQuirks.spec).toRgba CQuirks.spec).a = c.a :=
+  Rgba.hwb_roundtrip c h
+
+/-- the hwb form of an rgba colour is `==` to it -/
+theorem rgb_hwb_rgb_eqv (c : Rgba Rat) (h : c.WF) :
+    (Col.hwba (c.toHwba CQuirks.spec)).eqv CQuirks.spec (Col.rgba c) = true := by
+  obtain ⟨e1, e2, e3, e4⟩ := Rgba.hwb_roundtrip c h
+  exact eqv_spec_of_chan _ _ e1 e2 e3 e4
 
 /-! ## Equality -/
 
